@@ -508,7 +508,7 @@ def c11(tier):
         s.functions.update(n for n in ctx.bodies if re.search(r'read_xml|read_xsd|process_import|::extend|extend_no_duplicates|::read$', n) and '::tests::' not in n)
         fams = [F.import_graph(3, 2), F.import_graph(2, 2, with_missing=True)]
         if tier == 'thorough':
-            fams += [F.import_graph(4, 2), F.import_graph(3, 3), F.import_graph(3, 2, with_missing=True)]
+            fams += [F.import_graph(4, 1), F.import_graph(2, 3), F.import_graph(3, 2, with_missing=True)]
         for sc, info in fams:
             s.scenarios += 1
             res = sc.explore(ctx, max_paths=60000)
@@ -596,7 +596,7 @@ def c11(tier):
                             report(key, what, m, cond, expect)
             s.samples.append(stats)
     return run_e2('C11', tier, body, bounds='every import multigraph over 3 files with 2 import slots each and every start file (quick), plus 2 files with a missing target; '
-                  'thorough: 4 files x 2 slots, 3 files x 3 slots, 3 files with missing targets. Reachability is encoded as a z3 formula over the slot selectors. '
+                  'thorough: adds 4 files x 1 slot, 2 files x 3 slots, 3 files x 2 slots with missing targets (4 x 2 would be 390 000 paths: outside). Reachability is encoded as a z3 formula over the slot selectors. '
                   'Divergence = call depth > 60 frames. Outside: more files, malformed siblings (never parsed: shown by the parse-event check).')
 
 
@@ -1909,6 +1909,7 @@ def c13(tier):
         if tier == 'thorough':
             docs.append(('all_emitters.wsdl', corpus_files('all_emitters.wsdl'), 'all_emitters.wsdl'))
         for name, files, start in docs:
+            budget = (2 if tier == 'thorough' and name != 'all_emitters.wsdl' else 1)
             doc, flags, sels, dom = F.departure_doc(files[start], budget=budget)
             fs = dict(files)
             fs[start] = doc
